@@ -10,15 +10,15 @@ claimed = {
  'C01': ('A', 'explicit-state BFS over arrival histories on the real rtpDownTrack.Write / packetmap.Map vs extended-position reference',
    'Exhaustive BFS (canonical-state dedup, cloning checkpoints for long runs) over all arrival histories (in-order, above-layer, lost, late, duplicate, bursts up to 65530, 130 alternations) up to the stated depth, for start seqnos around every 16-bit boundary, through the real rtpDownTrack.Write bound to a recording write stream and through packetmap.Map alone; every forwarded number compared with source minus withheld-before, uniqueness, duplicates, withheld-never-forwarded.',
    'Layer state pinned so that withheld == VP8 TID>0 accepted by Drop; in order = immediate successor; resync jumps >8192 outside the quantifier; bounds as reported in evidence.', 'DESIGN.md §3 C01'),
- 'C02': ('A', 'explicit-state BFS over whole-frame arrival/withhold histories through the real Write for every descriptor-shape configuration; independent pion parsers as oracle',
-   'For every configuration (VP8 descriptor shapes, VP9 flexible/non-flexible with two spatial layers, opaque codecs; CSRC count; header extension; picture-id width and start; start seqno) all in-order histories of frames of 1-3 packets, each forwarded or withheld, are run through the real rtpDownTrack.Write; each output packet is compared with its source (length, timestamp, CSRCs, extension, marker rule, payload bytes outside the picture id, expected picture id = source minus withheld frames), and the source buffer must be untouched.',
-   'In-order arrival and whole-frame withholding as in the quantifier; layer state pinned.', 'DESIGN.md §3 C02'),
+ 'C02': ('A+B', 'explicit-state BFS over whole-frame arrival/withhold histories and retransmissions through the real Write for every descriptor-shape configuration; independent pion parsers as oracle; preemption-bounded schedule enumeration of concurrent rewriting Writes sharing the buffer pool',
+   'For every configuration (VP8 descriptor shapes, VP9 flexible/non-flexible with two spatial layers, opaque codecs; CSRC count; header extension; picture-id width and start; start seqno) all in-order histories of frames of 1-3 packets, each forwarded or withheld, are run through the real rtpDownTrack.Write; each output packet is compared with its source (length, timestamp, CSRCs, extension, marker rule, payload bytes outside the picture id, expected picture id = source minus withheld frames), and the source buffer must be untouched; a forwarded packet written again (as gotNACK does) must leave with the same payload; plus every schedule (<=2/3 preemptions) of two or three down tracks rewriting one packet each, with the buffer pool modelled as a deterministic free list and the write stream as a scheduling point: each receiver must get its own packet.',
+   'In-order arrival and whole-frame withholding as in the quantifier; layer state pinned; retransmissions are re-Writes of the cached source packet.', 'DESIGN.md §3 C02'),
  'C03': ('A+B', 'explicit-state BFS over forwarding histories interleaved with NACKs delivered as RTCP to the real rtcpDownListener; byte comparison with the first transmission; preemption-bounded schedule enumeration with vector-clock race monitor of gotNACK against the publisher storing/forwarding at the eviction boundary',
    'BFS over forward/withhold/loss/late/cache-resize/layer-request histories interleaved with NACKs for recent, never-sent, neighbouring and evicted numbers; retransmissions go through the real gotNACK/Reverse/GetPacket/cache/Write path and must be byte-identical to the first transmission or absent; plus a deeper pure Map/Drop/Reverse exploration with long runs (Reverse inverts Map, never names a withheld packet); plus every schedule (<=2/3 preemptions) of the real gotNACK answering for the packets at the cache eviction boundary while the publisher stores and forwards new packets (and resizes the cache), with all cache fields monitored for happens-before races and every packet leaving twice under one number compared byte for byte.',
    'Packets enter the cache as readLoop stores them; cache capacity 4 so eviction is reachable; VP9 layer requests set through an accessor mirroring adjustLayer.', 'DESIGN.md §3 C03'),
- 'C04': ('A', 'explicit-state BFS over packet/feedback/request interleavings on the real rtpDownTrack with before/after monitors',
+ 'C04': ('A+B', 'explicit-state BFS over packet/feedback/request interleavings on the real rtpDownTrack with before/after monitors; preemption-bounded schedule enumeration of Write, adjustLayer, replaceTracks and a NACK retransmission as concurrent threads with every store to the layer word attributed to its thread and packet',
    'BFS over every VP8/VP9 flag pattern (tid, sid, start, keyframe, up-switch, non-reference), one late packet, REMB and receiver reports (real RTCP through the real rtcpDownListener), feedback timeout, load changes on the virtual clock and low-quality requests (real replaceTracks), from the initial and two non-initial layer states, for start seqno classes; monitors check withholding above the selection, legality of every spatial/temporal switch, selection <= layers seen, steering to sid 0 after a low-quality request, and the loss ceiling bounds.',
-   'Canonical key abstracts the sequence map to "next packet is in order" (argument in DESIGN.md); in order = immediate successor; first packet of a stream exempt from the withholding rule; concurrency of Write vs feedback at atomic granularity is not explored in this revision.', 'DESIGN.md §3 C04'),
+   'Canonical key abstracts the sequence map to "next packet is in order" (argument in DESIGN.md); in order = immediate successor; first packet of a stream exempt from the withholding rule; VP9 packets without layer indices included; the concurrent sub-check reports the lost updates on the layer word as known findings (see known_findings.jsonl).', 'DESIGN.md §3 C04'),
  'C05': ('A+B',
    'explicit-state BFS over store/get/getAt/resize sequences on the real cache + preemption-bounded schedule enumeration with vector-clock race monitor',
    'Exhaustive BFS (canonical-state dedup) of all operation sequences over a colliding seqno/size/capacity alphabet up to the stated depth on the real packetcache.Cache, compared step by step with a bounded-FIFO reference; plus every schedule with <=2 (thorough: 3) preemptions of one writer and two readers with all Cache/entry fields monitored for happens-before races.',
@@ -34,7 +34,7 @@ claimed = {
    'For 11 group configurations (locked, max-clients 1/2/3, inside/before/after the window, autolock, autokick, both) all pairs and selected triples of 9 thread bodies (joins of users/operator/duplicate id, leaves, lock, unlock, reload) under every schedule with <=2/3 preemptions; the Joined(join) callback, invoked while AddClient holds the group lock, records the lock flag, membership and operator count the decision was based on; plus BFS depth 6/8 of join/leave/disconnect/lock/unlock through the real websocket handlers per configuration (joined{join|fail}, user{add}, lock state, membership) and the redirect case.',
    'Clients are recording fakes whose callbacks do not block; kicked fakes stay members (their loop never runs).', 'DESIGN.md §3 C10'),
  'C13': ('B', 'stateless schedule enumeration with iterative preemption bounding under a cooperative scheduler; vector-clock happens-before race monitor; deadlock = no enabled thread',
-   '20 programs of 1-3 threads with 1-3 real lifecycle calls each (AddClient, DelClient, SetLocked, reload, GetDescription, stats.GetGroups, group.Update, group.Delete, WhipClient.Close/Permissions, disk-writer Kick, Shutdown, data/history/status readers) plus two action-queue programs (two producers and the clientLoop consumer pattern), every schedule with <=3 (thorough 5) preemptions; deadlocks, unsynchronised accesses to the monitored Group/registry/configuration/queue fields, membership consistency, exactly-once and per-producer order of queued items.',
+   '21 programs of 1-3 threads with 1-3 real lifecycle calls each (AddClient, DelClient, SetLocked, reload, GetDescription, stats.GetGroups, group.Update, group.Delete, WhipClient.Close/Permissions, disk-writer Kick, Shutdown, data/history/status readers) plus two action-queue programs (two producers and the clientLoop consumer pattern), every schedule with <=3 (thorough 5) preemptions; deadlocks, unsynchronised accesses to the monitored Group/registry/configuration/queue fields, membership consistency, exactly-once and per-producer order of queued items; plus four programs with real rtpconn web clients under the scheduler (history replay vs posting, statistics and kick vs a client opening or closing a stream: lock order between the client lock and the group lock).',
    'Scheduling points at mutex, atomic, file and unbounded channel operations of the instrumented packages; happens-before through raw channels only for spawn/join.', 'DESIGN.md §3 C13'),
  'C20': ('A', 'exhaustive enumeration of delivery histories (bounded permutations, duplications, gaps with/without cache recovery, sender-report positions, sizes, pre-rolls) through the real disk writer; files parsed back with ebml-go',
    'For 205 stream configurations (VP8/VP9/H264/opus, 3-6 frames of 1-3 packets, payload sizes, timestamp and seqno wrap) every permutation with displacement <=2/3, every single duplication, every choice of one or two undelivered packets present or absent in the real packet cache, a sender report at every position, Close vs publisher departure, pre-rolls that put the sample builder ring just before its wrap, and a pre-roll whose first keyframe is lost for good (the file has to start at a later keyframe); each history is one execution of the real diskwriter through its public API; the recorded blocks are compared with independently depacketised frames (byte identity, no repeats, order, timestamps, completeness after the first keyframe, container well-formedness, shared origin — within arrival jitter, and within 2 ms once sender reports for both tracks precede the creation of the file —, flush on stop).',
@@ -49,13 +49,13 @@ claimed = {
    'Full product of 8 roles x 11 membership states (never joined, refused for each cause, joined, left, kicked, other group, revoked-and-notified) x 28 privileged message kinds x unrestricted-tokens, each executed on real webClients through the real handleClientMessage/handleAction; any effect other than a refusal to the sender requires membership and the permission; installed permissions vs reference; token delegation product; edit/list token scope; revocation interleaving points.',
    'Trusted mirror: clientLoop dispatch (one message or one action batch at a time; Exit on error); WHIP ingest credentials only through the HTTP product of C12 (no live sessions).', 'DESIGN.md §3 C11'),
  'C12': ('A+D', 'bounded exhaustive enumeration of client inputs (RTP/RTCP shape grammars, HTTP request product, sdpfrag line sequences, ill-typed signalling messages in every membership state) with a no-panic/response oracle',
-   'Every byte string of stated RTP/RTCP shape grammars (all 65536 descriptor prefixes, header shapes, AV1/H264 aggregation headers, every truncation) through the real classifiers, RewritePacket, rtpDownTrack.Write, readLoop and both RTCP listeners; full product of HTTP method x path shape x credential x content-type x body x precondition through the real handlers; all sdpfrag line sequences; every signalling message type with each field absent/ill-typed/empty/unknown/huge in 13 membership states, singly and in pairs.',
+   'Every byte string of stated RTP/RTCP shape grammars (all 65536 descriptor prefixes, header shapes, AV1/H264 aggregation headers, every truncation) through the real classifiers, RewritePacket, rtpDownTrack.Write, readLoop and both RTCP listeners; full product of HTTP method x path shape x credential x content-type x body x precondition through the real handlers; every string of <=5/7 characters over {W / \" x * , space} as If-Match/If-None-Match value through checkPreconditions; all sdpfrag line sequences; every signalling message type with each field absent/ill-typed/empty/unknown/huge in 13 membership states, singly and in pairs.',
    'Inputs outside the grammars; no live WebRTC session; net/http wire parsing and /ws upgrade not covered; shards that die are reported from their progress file.', 'DESIGN.md §3 C12'),
  'C19': ('A', 'exhaustive enumeration of all strings up to a length bound over a path-relevant alphabet through validators, group layer, HTTP handlers (three wire forms) and the disk writer, with a file-system operation log and sentinel files',
    'Every string of <=4 (thorough: 6) symbols over {a,b,.,/,\\,%,NUL,e-acute,space} is used as group name, username, token, recordings path, static path and delete-form filename through the real group layer, the routes registered by the real webserver.Serve (plain, percent-encoded and double-encoded forms) and the real diskwriter; every file-system operation of the instrumented packages must stay inside the directory of its category, sentinels outside stay untouched and unserved, nothing is served for a name the reference predicate rejects; validGroupName/validUsername agree with the predicate on all strings of <=7/8 symbols.',
    'Linux path semantics, no symlinks in the sandbox; os.Root operations trusted and cross-checked by sentinels; WHIP POST and the websocket upgrade not driven.', 'DESIGN.md §3 C19'),
  'C14': ('D+B', 'explicit-state BFS over membership/moderation/setdata sequences and detached-task firings through the real handlers; views rebuilt with protocol.js semantics; preemption-bounded schedule enumeration of the same worlds with every client loop and detached goroutine as a controlled thread',
-   'BFS over join/leave/disconnect/kick/op/unop/present/unpresent/setdata by three clients in two groups, with lazy variants (message handled while queues are non-empty) and explicit firing of detached goroutines; per-message oracles (no event from another group, one delete per departure) and, at quiescence, every member view == Group.GetClients with usernames, permissions and data; plus race programs (sig.RaceProgram) in which joins, leaves, moderation and setdata of different clients run as concurrently scheduled threads (<=2/3 preemptions) with the same quiescence oracle.',
+   'BFS over join/leave/disconnect/kick/op/unop/present/unpresent/setdata by three clients in two groups, a WHIP session joining and going away (reference membership from the history), with lazy variants (message handled while queues are non-empty) and explicit firing of detached goroutines; per-message oracles (no event from another group, one delete per departure) and, at quiescence, every member view == Group.GetClients with usernames, permissions and data; plus race programs (sig.RaceProgram) in which joins, leaves, moderation and setdata of different clients run as concurrently scheduled threads (<=2/3 preemptions) with the same quiescence oracle.',
    'Trusted mirror: clientLoop dispatch; per-message bookkeeping only on histories without lazy steps.', 'DESIGN.md §3 C14'),
  'C15': ('D+B', 'explicit-state BFS over chat/usermessage/clearchat/join/leave/tick sequences through the real handleClientMessage vs a reference chat model; preemption-bounded schedule enumeration of a joiner replaying a full history against posts and clears',
    'BFS over chat and usermessage variants (claimed source/username, dest, noecho, kinds, ids), clearchat variants, joins of late clients, a 49-message macro and clock ticks around the configured history age, by three clients with different roles in two groups; every message written to every client is checked for authenticity, privileged flag, recipients, spoof rejection and the history replay (order, bound 50, age, clears); plus race programs in which a client joins (history replay) while others post to a full history or clear it, under every schedule with <=2/3 preemptions.',
@@ -63,11 +63,11 @@ claimed = {
  'C16': ('A+B+C', 'explicit-state BFS over token operation sequences (library and HTTP) vs fresh reload; preemption-bounded schedule enumeration of conditional editors; crash-point and fault enumeration over every file-system step',
    'BFS over create/update/delete with current, stale and empty tags, expire, clock ticks, list, get and external file edits, through the library and the HTTP route, comparing the running server with a freshly loaded state after every step; all schedules (<=2/3 preemptions) of 2-3 editors holding tags; a crash before and after every vos step of five write histories, and one injected I/O error at every step.',
    'Process-crash model (no fsync is claimed or demanded for the token file); one Write per Encode granularity; signalling commands reach the store only through the library calls driven here.', 'DESIGN.md §3 C16'),
- 'C17': ('A', 'full product enumeration method x endpoint shape x credential x body through the real apiHandler; BFS over valid update sequences vs a reference model of the description',
-   'Full product of 7 methods x 199 paths (every router shape) x 23 credentials x content-types executed in-process: insufficient credentials must get 401/404 with byte-identical trees and no data; no response ever contains a secret marker; BFS over valid admin updates checks that nothing unaddressed is lost or altered on disk.',
+ 'C17': ('A+B', 'full product enumeration method x endpoint shape x credential x body through the real apiHandler; BFS over valid update sequences vs a reference model of the description; preemption-bounded schedule enumeration of a definition update against concurrent user, password and key updates',
+   'Full product of 7 methods x 199 paths (every router shape) x 23 credentials x content-types executed in-process: insufficient credentials must get 401/404 with byte-identical trees and no data; no response ever contains a secret marker; BFS over valid admin updates checks that nothing unaddressed is lost or altered on disk; every schedule (<=2/3 preemptions, file-system steps are scheduling points) of UpdateDescription against UpdateUser/SetUserPassword/DeleteUser/SetKeys on the same group: every acknowledged update is in the file at the end.',
    'Requests bypass net/http path cleaning; JWT credentials issued around the real clock.', 'DESIGN.md §3 C17'),
  'C18': ('A+B+C', 'full enumeration of precondition header strings vs RFC 7232 reference; preemption-bounded schedule enumeration of concurrent API requests with a linearisation oracle; crash-point enumeration under process-crash and power-failure models',
-   'All header strings of <=3/4 tokens through etagMatch/checkPreconditions; all schedules (<=2/3 preemptions) of 31 pairs and 5 triples of conditional GET/PUT/DELETE requests through the real apiHandler with a linearisation search (exclusivity, lost updates, conditional reads, complete definitions); a crash before/after every file-system step of rewriteDescriptionFile histories, with unsynced files materialised as empty/synced-prefix.',
+   'All header strings of <=3/4 tokens through etagMatch/checkPreconditions; all schedules (<=2/3 preemptions) of 31 pairs and 5 triples of conditional GET/PUT/DELETE requests through the real apiHandler with a linearisation search (exclusivity, lost updates, conditional reads, complete definitions); a crash before/after every file-system step of rewriteDescriptionFile histories, with unsynced files materialised as empty/synced-prefix; an I/O error returned by every file-system step of the histories of <=4 operations (the operation fails leaving a complete definition, or is acknowledged with the complete new one).',
    'Directory-entry durability of rename assumed; file reads are not scheduling points (one Write is one step).', 'DESIGN.md §3 C18'),
 }
 
